@@ -36,14 +36,15 @@ def strlenImpl (clusters : String → List String) (args : List Value) : Res Val
 /-! ### reverse -/
 
 /-- the copy loop of `ReverseFunc`: every cluster is copied in front of what has
-been written so far -/
-def reverseLoop : List String → String → String
-  | [], out => out
-  | c :: rest, out => reverseLoop rest (c ++ out)
+been written so far (`pos -= len(cluster); copy(out[pos:], cluster)`); `acc` is the
+written part of `out` as a list of clusters -/
+def reverseLoop : List String → List String → List String
+  | [], acc => acc
+  | c :: rest, acc => reverseLoop rest (c :: acc)
 
 def reverseImpl (nfc : String → String) (clusters : String → List String) (args : List Value) : Res Value := do
   let s ← asString (← arg args 0)
-  pure (stringVal nfc (reverseLoop (clusters s) ""))
+  pure (stringVal nfc (String.join (reverseLoop (clusters s) [])))
 
 /-! ### substr -/
 
